@@ -88,8 +88,13 @@ Proof.
       destruct (scatter _ (ix f) vals) as [cells| |]; cbn [obind] in H; try discriminate.
       destruct (col_of_cells ty cells) as [c| |]; cbn [obind] in H; try discriminate.
       inversion H; subst. apply (K c eq_refl).
-    + destruct (const_col c (phys_len f)) as [col| |]; cbn [obind] in H; try discriminate.
-      inversion H; subst. apply (K col eq_refl).
+    + destruct (Nat.eqb (length (ix f)) (phys_len f)).
+      * destruct (const_col c (phys_len f)) as [col| |]; cbn [obind] in H; try discriminate.
+        inversion H; subst. apply (K col eq_refl).
+      * destruct (const_type c) as [t|]; [|discriminate].
+        destruct (scatter _ (ix f) _) as [cells| |]; cbn [obind] in H; try discriminate.
+        destruct (col_of_cells t cells) as [col| |]; cbn [obind] in H; try discriminate.
+        inversion H; subst. apply (K col eq_refl).
     + inversion H; subst. split; [reflexivity|apply copy_names].
   - unfold apply1 in H. destruct (ferr f) eqn:Ef; [inversion H; subst; congruence|].
     destruct (lookup_col f (isrc1 i)) as [c|]; [|inversion H; subst; apply Kerr; reflexivity].
